@@ -643,7 +643,8 @@ func poolCount(p *config.Pool) (int64, int64, int64) {
 				if ipConfusesBuggyFirmwares(firstIP) {
 					sz--
 				}
-				if ipConfusesBuggyFirmwares(lastIP) {
+				// A /32 has a single address: do not count it twice.
+				if !lastIP.Equal(firstIP) && ipConfusesBuggyFirmwares(lastIP) {
 					sz--
 				}
 			}
